@@ -92,6 +92,7 @@ Sin(id) == Get(sin, id, NoSin)
 
 Stuck == flt \cap {"cstuck", "sstuck"} # {} \/ parked > 0
 CliDown == flt \cap {"cread", "cwrite"} # {}
+\* "cwrite1": exactly one client write is refused; the connection stays up
 SrvDown == flt \cap {"sread", "swfail", "stop", "serveret"} # {} \/ phase # "run"
 
 CtxDone(c) == \/ calls[c].cancelled
@@ -545,7 +546,7 @@ SSend(c, pay) ==
   /\ c \in DOMAIN calls /\ calls[c].opened = "ok"
   /\ CUpd(c, [calls[c] EXCEPT !.sent = Append(@, pay), !.late = Append(@, calls[c].cancelled)])
 
-StreamMayBeOver(c) == \/ CtxDone(c) \/ CliDown \/ calls[c].sendFailed
+StreamMayBeOver(c) == \/ CtxDone(c) \/ CliDown \/ calls[c].sendFailed \/ "cwrite1" \in flt
                       \/ Cin(calls[c].id).close # "" \/ Cin(calls[c].id).mayRst \/ Cin(calls[c].id).fbad
 
 SSendRet(c, res) ==
@@ -594,6 +595,7 @@ SRecvRet(c, res, code, msg, ndet, pay, plain) ==
              \/ code \in CtxCodes(c)                                               \* C07
              \/ "ctx" \in Off /\ CtxCodes(c) # {}
              \/ "cread" \in flt
+             \/ k.sendFailed                     \* the stream was torn down by its own failed Send
              \/ x.fbad
              \/ plain /\ k.recvd < Len(x.bodies) /\ x.bodies[k.recvd + 1] = "raw!"
              \/ k.term = "err" /\ code = k.tcode ) = TRUE
@@ -701,7 +703,7 @@ Idle == /\ \A c \in DOMAIN calls : ClientFinished(c)
         /\ \A h \in DOMAIN hnds : hnds[h].ret
         /\ preq = <<>>
 
-Quiesce(ngor) ==
+Quiesce(ngor, nsrv) ==
   /\ \A p \in pend : p.c \in DOMAIN calls /\ G("pend", PendLegit(p))
   /\ \A v \in live : LiveLegit(v)
   \* every well-formed request delivered to a live server started its handler (C01 "never none")
@@ -722,6 +724,16 @@ Quiesce(ngor) ==
   /\ G("reg", ~Stuck => \A c \in DOMAIN calls : ClientFinished(c) /\ calls[c].id # "" => calls[c].id \notin creg)
   /\ G("reg", ~Stuck => \A h \in DOMAIN hnds : hnds[h].ret /\ hnds[h].kind # "unary" /\ Get(hOf, hnds[h].id, 0) = h => hnds[h].id \notin sreg)
   /\ G("reg", (Idle /\ ~Stuck) => creg = {} /\ sreg = {} /\ (cfg.ncli = 1 => ngor <= base))
+  \* once Serve has returned and the handlers have returned, no goroutine of that connection remains (C10),
+  \* even if the transport was stuck: a blocked write returns when the connection context is done
+  /\ G("serve", ("serveret" \in flt /\ cfg.ncli = 1 /\ live = {} /\ parked = 0) => nsrv = 0)
+  \* when the caller's side of a stream is over on a healthy connection, the server's side does not
+  \* sit in a blocking call for ever: it has been told (C14, C07)
+  /\ G("reg", (~Stuck /\ ~CliDown /\ ~SrvDown) =>
+        \A v \in live : (v.kind # "unary" /\ v.in \in {"recv", "ctxwait"} /\ v.h \in DOMAIN hnds) =>
+           ~\E c \in DOMAIN calls : /\ calls[c].id = hnds[v.h].id /\ calls[c].kind # "unary"
+                                    /\ ClientFinished(c) /\ Cin(calls[c].id).close = ""
+                                    /\ (v.in = "ctxwait" \/ hnds[v.h].nrecv = Len(Sin(hnds[v.h].id).items)))
   \* after a quiescent point a finished stream is definitely unregistered
   /\ sin' = [id \in DOMAIN sin |-> IF sin[id].st = "closing" /\ ~Stuck THEN [sin[id] EXCEPT !.st = "dead"] ELSE sin[id]]
   /\ pend' = {} /\ live' = {} /\ cregN' = -1
